@@ -16,7 +16,7 @@ RULE = ('seeded instrumented charts with live_spy and/or live_trace switched on,
 ASSUMPTIONS = ['the clock is the injected fault; in active-object runs the client waits until the object and the writer thread are idle before comparing']
 PROBES = ['equal_consecutive_timestamps']
 PLAN = {
-  'quick': {'strata': {'fine-clock': 1500, 'faulty-clock': 4000, 'shared-writer': 1500}, 'wall_s': 90, 'chunk': 100, 'min_conclusive': 1000},
+  'quick': {'strata': {'fine-clock': 1500, 'faulty-clock': 4000, 'shared-writer': 1500}, 'wall_s': 300, 'chunk': 100, 'min_conclusive': 1000},
   'thorough': {'strata': {'fine-clock': 30000, 'faulty-clock': 100000, 'shared-writer': 40000}, 'wall_s': 900, 'chunk': 250, 'min_conclusive': 10000},
 }
 ORACLES = [co.check_live]
